@@ -278,6 +278,7 @@ func checkC20(P *core.Program, R *core.Report) {
 		}
 	}
 	checkTriggers(P, R)
+	checkOrderRebuiltComplete(P, R)
 	// (4) isolation
 	if fn := P.Fn("x/tradeshield/keeper.msgServer.ExecuteOrders"); fn != nil {
 		ff := P.Facts(fn)
@@ -705,4 +706,86 @@ func checkEscrowNamespaces(P *core.Program, R *core.Report) {
 	}
 	R.Add(rule, "x/tradeshield/types.SpotOrder.GetOrderAddress | PerpetualOrder.GetOrderAddress", "disjoint escrow name spaces", P.Pos(perp.Pos()), disjoint && ownID(spot) && ownID(perp),
 		fmt.Sprintf("spot derivation constants %v, perpetual derivation constants %v: must be non-empty and disjoint, each applied to the order's own id", keysOf(cs), keysOf(cp)))
+}
+
+// checkOrderRebuiltComplete (C20-order-rebuilt): an order that is stored again from a
+// literal assembled out of the loaded order (instead of the loaded record itself) carries
+// every field of the record type — a field left out is silently reset to its zero value
+// (OrderType 0 is STOPLOSS: an updated LIMITSELL then sells at any price below the limit).
+func checkOrderRebuiltComplete(P *core.Program, R *core.Report) {
+	const rule = "C20-order-rebuilt"
+	n := 0
+	for _, fn := range P.Funcs {
+		k := P.Key(fn)
+		if fn.Blocks == nil || !strings.HasPrefix(k, "x/tradeshield/keeper.") || core.IsGeneratedOrAux(P.File(fn.Pos())) {
+			continue
+		}
+		ff := P.Facts(fn)
+		for _, c := range core.Calls(fn) {
+			ck := P.CalleeKey(c.Common())
+			if !strings.HasSuffix(ck, "Keeper.SetPendingSpotOrder") && !strings.HasSuffix(ck, "Keeper.SetPendingPerpetualOrder") {
+				continue
+			}
+			args := c.Common().Args
+			rec := args[len(args)-1]
+			// the record argument is a load of a local that was filled field by field
+			ld, ok := rec.(*ssa.UnOp)
+			if !ok {
+				continue
+			}
+			al, ok := ld.X.(*ssa.Alloc)
+			if !ok || al.Referrers() == nil {
+				continue
+			}
+			st := core.AsNamed(al.Type().Underlying().(*types.Pointer).Elem())
+			if st == nil {
+				continue
+			}
+			str, ok := st.Underlying().(*types.Struct)
+			if !ok {
+				continue
+			}
+			whole, fromLoaded := false, false
+			set := map[string]bool{}
+			for _, r := range *al.Referrers() {
+				switch x := r.(type) {
+				case *ssa.Store:
+					if x.Addr == ssa.Value(al) {
+						whole = true // assigned as a whole (the loaded record itself)
+					}
+				case *ssa.FieldAddr:
+					if x.Referrers() == nil {
+						continue
+					}
+					for _, rr := range *x.Referrers() {
+						if s2, ok := rr.(*ssa.Store); ok && s2.Addr == ssa.Value(x) {
+							set[core.FieldName(x.X.Type(), x.Field)] = true
+							for _, o := range ff.Origins(s2.Val) {
+								if o.Kind == "call" && (strings.HasSuffix(o.Name, "Keeper.GetPendingSpotOrder") || strings.HasSuffix(o.Name, "Keeper.GetPendingPerpetualOrder")) {
+									fromLoaded = true
+								}
+							}
+						}
+					}
+				}
+			}
+			if whole || !fromLoaded {
+				continue
+			}
+			n++
+			var missing []string
+			for i := 0; i < str.NumFields(); i++ {
+				f := str.Field(i)
+				if !f.Exported() || strings.HasPrefix(f.Name(), "XXX_") {
+					continue
+				}
+				if !set[f.Name()] {
+					missing = append(missing, f.Name())
+				}
+			}
+			R.Add(rule, k, "order re-stored from a literal", P.Pos(P.InstrPos(c)), len(missing) == 0,
+				"an order rebuilt from the loaded one sets every field of the record; missing: "+strings.Join(missing, ", "))
+		}
+	}
+	R.Analysed["orders_rebuilt_from_literals"] = n
 }
